@@ -35,17 +35,14 @@
 #include "linux/eventloop_epoll.h"
 #include "log.h"
 
-static enum eventloop_return handle_events(struct eventloop_epoll *loop, int num_events, struct epoll_event *events)
+static enum eventloop_return dispatch_events(struct eventloop_epoll *loop, int num_events, struct epoll_event *events)
 {
-	if (unlikely(num_events == -1)) {
-		if (errno == EINTR) {
-			return EL_CONTINUE_LOOP;
-		} else {
-			return EL_ABORT_LOOP;
-		}
-	}
 	for (int i = 0; i < num_events; ++i) {
 		struct io_event *ev = events[i].data.ptr;
+		if (unlikely(ev == NULL)) {
+			/* removed from the eventloop by an earlier callback of this batch */
+			continue;
+		}
 		loop->current_ev = ev;
 
 		if (unlikely((events[i].events & ~(EPOLLIN | EPOLLOUT)) != 0)) {
@@ -83,6 +80,24 @@ static enum eventloop_return handle_events(struct eventloop_epoll *loop, int num
 	return EL_CONTINUE_LOOP;
 }
 
+static enum eventloop_return handle_events(struct eventloop_epoll *loop, int num_events, struct epoll_event *events)
+{
+	if (unlikely(num_events == -1)) {
+		if (errno == EINTR) {
+			return EL_CONTINUE_LOOP;
+		} else {
+			return EL_ABORT_LOOP;
+		}
+	}
+
+	loop->pending_events = events;
+	loop->num_pending_events = num_events;
+	enum eventloop_return ret = dispatch_events(loop, num_events, events);
+	loop->pending_events = NULL;
+	loop->num_pending_events = 0;
+	return ret;
+}
+
 int eventloop_epoll_init(void *this_ptr)
 {
 	struct eventloop_epoll *loop = this_ptr;
@@ -92,6 +107,8 @@ int eventloop_epoll_init(void *this_ptr)
 	}
 
 	loop->current_ev = NULL;
+	loop->pending_events = NULL;
+	loop->num_pending_events = 0;
 	return 0;
 }
 
@@ -141,5 +158,15 @@ void eventloop_epoll_remove(void *this_ptr, const struct io_event *ev)
 	epoll_ctl(loop->epoll_fd, EPOLL_CTL_DEL, ev->sock, NULL);
 	if (loop->current_ev == ev) {
 		loop->current_ev = NULL;
+	}
+
+	/*
+	 * Events for this io_event might already be harvested. The io_event
+	 * is probably freed by the caller, so make sure they are not dispatched.
+	 */
+	for (int i = 0; i < loop->num_pending_events; ++i) {
+		if (loop->pending_events[i].data.ptr == ev) {
+			loop->pending_events[i].data.ptr = NULL;
+		}
 	}
 }
